@@ -295,7 +295,7 @@ func c13(c *Ctx) {
 	}
 	var entries []*ssa.Function
 	for _, nme := range []string{"codecs.(*AV1Payloader).Payload", "codecs.(*AV1Depacketizer).Unmarshal", "codecs.(*AV1Packet).Unmarshal", "codecs/av1/frame.(*AV1).ReadFrames",
-		"codecs/av1/obu.ReadLeb128", "codecs/av1/obu.WriteToLeb128", "codecs/av1/obu.ParseOBUHeader", "codecs/av1/obu.(*Header).Marshal"} {
+		"codecs/av1/obu.ReadLeb128", "codecs/av1/obu.WriteToLeb128", "codecs/av1/obu.ParseOBUHeader", "codecs/av1/obu.(*Header).Marshal", "codecs/av1/obu.(*OBU).Marshal"} {
 		if f := p.Func(nme); f != nil {
 			entries = append(entries, f)
 		} else {
@@ -303,6 +303,7 @@ func c13(c *Ctx) {
 		}
 	}
 	boundsFor(c, "C13", entries)
+	r.Infof("CTR.lenprefix: %d length-prefix/data pair(s) recognised and reached", len(c.lenPairsSeen))
 }
 
 // blocksWithCallees: the blocks of fn, of its closures and of the functions of the same package it
